@@ -15,13 +15,13 @@ import (
 // Harness_C16_genRanges: the range generator partitions [Start, End) into contiguous,
 // disjoint batches of at most BatchSize, in order (goroutine sequentialised, channel = FIFO).
 //
-//verif:opt maxpaths=4000 reach=empty,covered
+//verif:opt sched=1 preempt=0 maxpaths=4000 reach=empty,covered
 func Harness_C16_genRanges() {
 	start, end := vI64("start"), vI64("end")
 	batch := vInt("batch")
-	vAssume(start >= 0 && end >= 0 && end < 1<<62 && start < 1<<62)
-	vAssume(batch >= 1 && batch <= 1<<30)
-	vAssume(end-start <= 3*int64(batch)) // stated bound: at most 3 batches (unwinding)
+	vAssume(start >= 0 && end >= 0) // any indices up to MaxInt64, any positive batch size up to MaxInt64
+	vAssume(batch >= 1)
+	vAssume(end < start || (end-start)/3 < int64(batch)) // stated bound: at most 4 batches (unwinding)
 	f := &Fetcher{uri: "log", opts: &FetcherOptions{BatchSize: batch, StartIndex: start, EndIndex: end}}
 	ch := f.genRanges(context.Background())
 	next := start
